@@ -98,6 +98,63 @@ def d2(ctx, prog, build):
               f'matcher reads {sorted(reads)}: all handed over by build()', m.mod.relpath)
 
 
+def d5(ctx, prog):
+    """the matching score is a sum over the matched traces, normalised once by their number: every contribution to the
+    score accumulator scales linearly with the batch (trace-count exponent 1, no trace axis left, reads no running state), and
+    the value returned by _compute combines the accumulator with processed_traces to exponent 0 (a mean over the traces)."""
+    from .. import nexp
+    m = prog.need_class(TPL, '_BaseTemplateAttackDistinguisherMixin')
+    upd, comp, init = m.methods.get('_update'), m.methods.get('_compute'), m.methods.get('_initialize')
+    if upd is None or comp is None or init is None:
+        raise AnalysisError('matcher _update/_compute/_initialize not found')
+    accs = [self_attr(s.targets[0]) for s in ast.walk(init.node) if isinstance(s, ast.Assign) and self_attr(s.targets[0]) and isinstance(s.value, ast.Call)
+            and norm(s.value.func).split('.')[-1] == 'zeros']
+    if not accs:
+        raise AnalysisError('matcher score accumulator not found')
+    x = nexp.NExp(upd, {upd.params[1]: (True, 0), upd.params[2]: (True, 0)}).run()
+    n = 0
+    written = {a for a, v, st, how in x.contrib}
+    for a, v, st, how in x.contrib:
+        if a not in accs:
+            continue
+        n += 1
+        key = f'{upd.key}::{norm(st)[:80]}'
+        reads = astutil.self_attrs_read(st.value) & (set(accs) | {'processed_traces'} | (written - set(accs)))
+        if how != 'Add':
+            ctx.fail('C14-D5', key, f'the score accumulator is written with `{how}`, not accumulated with +=', upd.where(st))
+        elif reads:
+            ctx.fail('C14-D5', key, f'the contribution reads running state {sorted(reads)}: the score is not a plain sum over the matched traces (it depends on how they were batched)', upd.where(st))
+        elif v is nexp.TOP:
+            ctx.undecided('C14-D5', key, 'how the contribution scales with the number of traces of the batch could not be derived', upd.where(st))
+        elif v[0] is True:
+            ctx.fail('C14-D5', key, 'the contribution still has one entry per trace: it is not reduced over the traces of the batch', upd.where(st))
+        else:
+            ctx.check(v[1] == 1, 'C14-D5', key, f'the contribution scales with (number of traces in the batch)^{v[1]}: with exponent 0 every batch weighs the same whatever its size '
+                      f'(mean of batch means), the score is not the mean over all matched traces', 'contribution = sum over the traces of the batch (exponent 1)', upd.where(st), exponent=v[1])
+    y = nexp.NExp(comp, {}, attrs={a: (False, 1) for a in accs} | {'processed_traces': (False, 1)}).run()
+    for v, st in y.returns:
+        n += 1
+        key = f'{comp.key}::{norm(st)[:80]}'
+        used = astutil.self_attrs_read(st.value)
+        if not (set(accs) & used):
+            ctx.fail('C14-D5', key, 'the returned score does not use the score accumulator', comp.where(st))
+        elif v is nexp.TOP:
+            # `10 - acc / n`: a constant minus an exponent-0 value; evaluate the non-constant part
+            inner = st.value
+            while isinstance(inner, ast.BinOp) and isinstance(inner.op, (ast.Add, ast.Sub)) and (isinstance(inner.left, ast.Constant) or isinstance(inner.right, ast.Constant)):
+                inner = inner.right if isinstance(inner.left, ast.Constant) else inner.left
+            v2 = y.ev(inner)
+            if v2 is nexp.TOP:
+                ctx.undecided('C14-D5', key, 'normalisation of the returned score not derivable', comp.where(st))
+            else:
+                ctx.check(v2[1] == 0, 'C14-D5', key, f'the returned score scales with (number of matched traces)^{v2[1]}: it is not the mean over the matched traces',
+                          'score accumulator / processed_traces: the mean over the matched traces', comp.where(st))
+        else:
+            ctx.check(v[1] == 0, 'C14-D5', key, f'the returned score scales with (number of matched traces)^{v[1]}: it is not the mean over the matched traces',
+                      'score accumulator / processed_traces: the mean over the matched traces', comp.where(st))
+    return n
+
+
 def run(ctx, prog):
     ctx.rule('C14-D1', 'matcher refuses before build (first statement); build() sets is_build last, after running the build analysis and copying the profile; starts False')
     ctx.rule('C14-D2', 'profile hand-over: matcher reads exactly what build() copies, name for name (templates <- results); build side produces each')
@@ -113,5 +170,22 @@ def run(ctx, prog):
         o.rule = 'C14-D3'
         ctx._add(o)
     n4 = axes.check_family(ctx, prog, 'C14-D4', [TPL])
+    ctx.rule('C14-D5', 'trace-count homogeneity of matching: contributions to the score accumulator are sums over the traces of the batch (exponent 1, no running state read), _compute returns accumulator / processed_traces (exponent 0)')
+    ctx.floor('matching score obligations', d5(ctx, prog), 2)
+    # computing the profile (or the scores) must not alter the accumulated state: the ownership analysis of C01-D5
+    # instantiated for the template classes (a second build / a build after more traces must see unclamped counters)
+    from . import c01
+    us, _ = c01.units(prog)
+    npure = 0
+    for u in us:
+        cf_ = prog.resolve_method(u.cls, '_compute')
+        if cf_ is None or cf_.mod.name != TPL:
+            continue
+        u.guard = c01.find_guard(prog, u)
+        u.acc = universe.accumulators(prog, u.cls, u.init)
+        c01.d5(ctx, prog, u.cls, u.compute, u.acc, u.count, u.guard or '', rule='C14-D6')
+        npure += 1
+    ctx.rule('C14-D6', 'the compute closure of every template class (build and matching) has no persistent effect on accumulated state (ownership analysis): profiles can be rebuilt / scores re-read')
+    ctx.floor('template classes checked for compute purity', npure, 3)
     ctx.floor('template row selections', n3, 2)
     ctx.floor('axis obligations (template)', n4, 20)
